@@ -271,6 +271,10 @@ type diamPeer struct {
 	mux  *sm.StateMachine
 	cli  *sm.Client
 	addr string
+	// consecutive requests that got neither an answer nor the watchdog's answer within the deadline: a server whose
+	// handlers have stopped returning is not waited for at full length again and again (each such request is still
+	// reported as unanswered)
+	stalls int
 }
 
 func newPeer(addr, answerCmd string) *diamPeer {
@@ -346,13 +350,19 @@ func (p *diamPeer) roundTrip(m *diam.Message) (*diam.Message, int) {
 	w.NewAVP(avp.OriginRealm, avp.Mbit, 0, datatype.DiameterIdentity("go-diameter"))
 	w.NewAVP(avp.OriginStateID, avp.Mbit, 0, datatype.Unsigned32(1))
 	_, _ = w.WriteTo(p.conn)
-	deadline := time.After(3 * time.Second)
+	wait := 3 * time.Second
+	if p.stalls >= 4 {
+		wait = 150 * time.Millisecond
+	}
+	deadline := time.After(wait)
 	var ans *diam.Message
 	for {
 		select {
 		case a := <-p.ch:
 			ans = a
+			p.stalls = 0
 		case <-p.dwa:
+			p.stalls = 0
 			select {
 			case a := <-p.ch:
 				ans = a
@@ -374,6 +384,7 @@ func (p *diamPeer) roundTrip(m *diam.Message) (*diam.Message, int) {
 			}
 			return nil, rtClosed
 		case <-deadline:
+			p.stalls++
 			p.conn.Close()
 			p.dial()
 			return nil, rtClosed
